@@ -77,9 +77,13 @@ def best_token_loop(body, fn, die, coq_str):
         g = "none"
         if guard is not None:
             g = norm(guard)
-            if not re.fullmatch(r"(count|filters\.len\(\))<min_count", g):
+            # `<` and `<=` differ only in which of two equally rare tokens wins (a tie-break of the
+            # layout: every theorem about the index needs only that the chosen token is one of the
+            # group's own); anything else is not recognised
+            mg = re.fullmatch(r"(count|filters\.len\(\))(<=?)min_count", g)
+            if not mg:
                 die("%s: guard not recognised: %r" % (fn, guard))
-            g = "count<min_count"
+            g = "count%smin_count" % mg.group(2)
         a = []
         for x in assigns:
             if x == "best_token=token":
